@@ -199,6 +199,10 @@ pub fn run(ctx: &mut Ctx) {
     *ctx.distribution.entry("law-exceptions.trail-byte-5e".into()).or_insert(0) = rep.trail_5e.len() as u64;
     *ctx.distribution.entry("law-exceptions.codec-not-inverting".into()).or_insert(0) = rep.not_inverted.len() as u64;
     *ctx.distribution.entry("law-exceptions.nul-in-encoding".into()).or_insert(0) = rep.with_nul.len() as u64;
+    *ctx.distribution.entry("law-exceptions.lead-byte-is-marker".into()).or_insert(0) = rep.lead_marker.len() as u64;
+    for (l, c) in rep.lead_marker.iter().take(3) {
+        ctx.violation("c10/law/lead-byte-is-marker", "a non-ASCII character's first encoded byte is a codepage letter or '8': the law the caret theorems assume fails for this table", &format!("{} U+{:04X}", l, *c as u32), "lead byte >= 0x80", "marker byte");
+    }
     // 1. every encodable character alone (all of the small codepages; stride over the CJK ones in quick)
     for (l, v) in &rep.by_letter {
         let step = if quick && v.len() > 2000 { 37 } else { 1 };
